@@ -560,8 +560,9 @@ def build_groups(ctx):
         g['runs'] = [('base', None, {}), ('repeat', 'CRepeat', {}), ('hash', 'CHashSeed', {'hashseed': hs}),
                      ('progress', 'CProgress', {'show_progress': True}), ('logging', 'CLogging', {'log_level': 10}),
                      ('inproc', 'CSameInterpreter', {'sequence': True})]
-        if ctx.tier == 'quick':     # time budget: the two presentation switches alternate over the configurations
+        if ctx.tier == 'quick':     # time budget: the two presentation switches alternate over the configurations,
             g['runs'] = [r for r in g['runs'] if r[0] != ('logging' if i % 2 == 0 else 'progress')]
+            g['short_sequence'] = True      # and the same-interpreter sequence is: configuration, another, configuration
         groups.append(g)
     par_kinds = ['evo', 'pop_random_mutation', 'surrogate']
     for i in range(n_par):
@@ -590,6 +591,9 @@ def build_groups(ctx):
                      ('progress', 'CFacade', {'show_progress': True}), ('logging', 'CFacade', {'log_level': 10}),
                      ('j2', 'CWorkers', {'facade_n_jobs': 2}),
                      ('j2r', 'CWorkersRepeat', {'facade_n_jobs': 2}), ('inproc', 'CSameInterpreter', {'sequence': True})]
+        if ctx.tier == 'quick':
+            g['runs'] = [r for r in g['runs'] if r[0] != 'progress']
+            g['short_sequence'] = True
         groups.append(g)
     return groups
 
@@ -611,7 +615,7 @@ def jobs_of(group):
         if var.get('sequence'):
             # ONE interpreter: the configuration, the same again, another configuration, the same a third time
             between = dict(BETWEEN_FACADE if group['family'] == 'facade' else BETWEEN_CLASS)
-            job['sequence'] = [cfg, cfg, between, cfg]
+            job['sequence'] = [cfg, between, cfg] if group.get('short_sequence') else [cfg, cfg, between, cfg]
         jobs.append(job)
     return jobs
 
@@ -665,9 +669,10 @@ def build_case(group, results):
     flat = []
     for r in results[1:]:
         if r.get('seq'):
-            for pos in (0, 1, 3):
+            n_seq = len(r['seq'])
+            for pos in ((0, 2) if n_seq == 3 else (0, 1, 3)):     # every run of the group's own configuration
                 sub = dict(r['seq'][pos])
-                sub['job'] = dict(r['job'], run='inproc%d' % (pos + 1 if pos < 3 else 3))
+                sub['job'] = dict(r['job'], run='inproc@%d' % pos)
                 flat.append(sub)
         else:
             flat.append(r)
@@ -762,7 +767,7 @@ def run_groups(ctx, groups):
                 jobs.append(j)
                 owner.append(gi)
         t0 = time.time()
-        results = run_jobs(jobs, ctx.pick(4, 5), tmp)
+        results = run_jobs(jobs, 5, tmp)
         ctx.notes.append('%d runs in fresh interpreters, %.0f s wall' % (len(jobs), time.time() - t0))
     finally:
         import shutil
